@@ -27,7 +27,11 @@ MaxField(seq, fld) == IF seq = <<>> THEN 0 ELSE MaxOf({seq[i][fld] : i \in DOMAI
 BufBoundKiB(f, slots) == ((MaxOf({1, slots}) * 2 * MaxField(f.chunks, "usize") + 2 * MaxField(f.chunks, "len") + 2 * f.maxRec) \div 1024) + 64
 
 (* C20: attachments stream through reader and writer in constant memory *)
-JudgeStream(e) == IF e.ok /\ e.peakKiB <= 4096 /\ e.totalKiB <= 8192 THEN {} ELSE {"C20/Stream/" \o e.dir}
+(* ... and the writer's live heap does not grow with the number of messages written (dir write-long*: peakKiB is the growth
+   between message 100 000 and 300 000; measured 8 - 13 KiB on the unchanged tree) *)
+JudgeStream(e) ==
+  IF e.dir \in {"write-long", "write-long-noindex"} THEN (IF e.ok /\ e.peakKiB <= 512 THEN {} ELSE {"C20/WriterHeap/" \o e.dir})
+  ELSE IF e.ok /\ e.peakKiB <= 4096 /\ e.totalKiB <= 8192 THEN {} ELSE {"C20/Stream/" \o e.dir}
 
 JudgeRead(s, e) ==
   LET f == s.f
